@@ -436,13 +436,19 @@ func (x *Exec) addCover(name string, st *State) {
 // function is reachable under its precondition and the assumed callee contracts: guards against assumptions
 // that silently kill every path).
 func (x *Exec) addCoverAny(name string, st *State) {
+	o := x.registerCoverAny(name, "some normal exit is reachable (non-vacuity)")
+	o.Instances = append(o.Instances, OblInstance{PC: append([]Term(nil), st.pc...), Goal: tFalse, Trail: append([]string(nil), st.trail...)})
+}
+
+// registerCoverAny creates the cover obligation without an instance: if no path ever adds one, it fails as vacuous.
+func (x *Exec) registerCoverAny(name, text string) *Obligation {
 	o := x.obls[name]
 	if o == nil {
-		o = &Obligation{Name: name, Kind: "cover-any", Counts: true, Text: "some normal exit is reachable (non-vacuity)"}
+		o = &Obligation{Name: name, Kind: "cover-any", Counts: true, Text: text}
 		x.obls[name] = o
 		x.oblOrder = append(x.oblOrder, name)
 	}
-	o.Instances = append(o.Instances, OblInstance{PC: append([]Term(nil), st.pc...), Goal: tFalse, Trail: append([]string(nil), st.trail...)})
+	return o
 }
 
 func (x *Exec) explore(st0 *State) {
@@ -769,6 +775,7 @@ func (x *Exec) loopHeader(st *State, fr *Frame, h *ssa.BasicBlock, ord int, phis
 				x.assert(st, x.oblName(kindPrefix+"/step", i+1, inv.Label), "invariant-step", inv.Text, inv.Src, x.evalBool(sc, inv.Expr), true)
 			}
 			if len(spec.IterEnsures) > 0 {
+				x.addCoverAny(x.oblName(kindPrefix+"/iteration-reachable", 0, ""), st)
 				isc := x.specCtxFor(st, fr, fr.pre)
 				isc.preferEnv = true
 				isc.evFrom = fr.loopEv[h]
@@ -792,6 +799,9 @@ func (x *Exec) loopHeader(st *State, fr *Frame, h *ssa.BasicBlock, ord int, phis
 		fr.loopEv = m
 	}
 	fr.loopEv[h] = len(st.events)
+	if spec != nil && len(spec.IterEnsures) > 0 {
+		x.registerCoverAny(x.oblName(kindPrefix+"/iteration-reachable", 0, ""), "some complete iteration of the loop is reachable (the per-iteration clauses are not vacuous)")
+	}
 	if spec != nil {
 		for i, inv := range spec.Invariants {
 			x.assert(st, x.oblName(kindPrefix+"/init", i+1, inv.Label), "invariant-init", inv.Text, inv.Src, x.evalBool(sc, inv.Expr), true)
@@ -819,7 +829,7 @@ func (x *Exec) loopHeader(st *State, fr *Frame, h *ssa.BasicBlock, ord int, phis
 			st.assume(x.evalBool(sc2, inv.Expr))
 		}
 	}
-	snap := &headSnap{heap: copyHeap(st.heap), env: make(map[string]envEntry, len(fr.env))}
+	snap := &headSnap{heap: copyHeap(st.heap), env: make(map[string]envEntry, len(fr.env)), allocN: st.allocN}
 	for k, v := range fr.env {
 		snap.env[k] = v
 	}
@@ -837,6 +847,29 @@ func (x *Exec) havocLoopWrites(st *State, fr *Frame, body []*ssa.BasicBlock) {
 	for _, b := range body {
 		inLoop[b] = true
 	}
+	scanInstr, _ := x.writeScanner(st, fr, inLoop, false)
+	for _, b := range body {
+		for _, instr := range b.Instrs {
+			scanInstr(instr, true, 0)
+		}
+	}
+}
+
+// concurrentWrites: the heap arrays (by static type of the written location) that a goroutine running fn may
+// write: its own stores and those of the functions it calls; a call it makes through an interface or a function
+// value may write every field of the structs it is handed a pointer to.
+func (x *Exec) concurrentWrites(fn *ssa.Function) map[string]Sort {
+	tmp := newState()
+	_, scanFn := x.writeScanner(tmp, nil, nil, true)
+	scanFn(fn, 0)
+	out := map[string]Sort{}
+	for k := range tmp.written {
+		out[k] = tmp.heap[k].Sort
+	}
+	return out
+}
+
+func (x *Exec) writeScanner(st *State, fr *Frame, inLoop map[*ssa.BasicBlock]bool, conc bool) (func(instr ssa.Instruction, local bool, depth int), func(fn *ssa.Function, depth int)) {
 	seenFn := map[*ssa.Function]bool{}
 	var scanFn func(fn *ssa.Function, depth int)
 	havocAddr := func(addr ssa.Value, local bool) {
@@ -869,6 +902,9 @@ func (x *Exec) havocLoopWrites(st *State, fr *Frame, body []*ssa.BasicBlock) {
 	scanInstr := func(instr ssa.Instruction, local bool, depth int) {
 		switch in := instr.(type) {
 		case *ssa.Store:
+			if conc && ownAllocation(in.Addr) {
+				return // initialisation of an object the goroutine itself created
+			}
 			havocAddr(in.Addr, local)
 		case *ssa.MapUpdate:
 			mt := in.Map.Type().Underlying().(*types.Map)
@@ -893,7 +929,26 @@ func (x *Exec) havocLoopWrites(st *State, fr *Frame, body []*ssa.BasicBlock) {
 			case *ssa.MakeClosure:
 				callee = cv.Fn.(*ssa.Function)
 			}
-			if callee == nil {
+			if callee == nil || (conc && callee.Blocks == nil && intrinsicName(callee) == "") {
+				if conc {
+					// unknown code run by the goroutine: it may write the structs it is handed
+					args := com.Args
+					if com.IsInvoke() {
+						args = append([]ssa.Value{com.Value}, args...)
+					}
+					for _, a := range args {
+						if mi, ok := a.(*ssa.MakeInterface); ok {
+							a = mi.X // a pointer handed over inside an interface value
+						}
+						if pt, ok := a.Type().Underlying().(*types.Pointer); ok {
+							if _, isStruct := pt.Elem().Underlying().(*types.Struct); isStruct {
+								for _, l := range leavesOf(pt.Elem()) {
+									x.havocKey(st, heapKeyField(pt.Elem(), l.path), arrSort(SInt, l.sort))
+								}
+							}
+						}
+					}
+				}
 				return
 			}
 			if name := intrinsicName(callee); name != "" {
@@ -928,9 +983,24 @@ func (x *Exec) havocLoopWrites(st *State, fr *Frame, body []*ssa.BasicBlock) {
 			scanFn(af, depth+1)
 		}
 	}
-	for _, b := range body {
-		for _, instr := range b.Instrs {
-			scanInstr(instr, true, 0)
+	return scanInstr, scanFn
+}
+
+// ownAllocation: the address is (a field of) an object allocated by the same function.
+func ownAllocation(addr ssa.Value) bool {
+	for {
+		switch a := addr.(type) {
+		case *ssa.Alloc:
+			return true
+		case *ssa.FieldAddr:
+			addr = a.X
+		case *ssa.IndexAddr:
+			if _, isPtr := a.X.Type().Underlying().(*types.Pointer); !isPtr {
+				return false
+			}
+			addr = a.X
+		default:
+			return false
 		}
 	}
 }
@@ -1468,11 +1538,50 @@ func (x *Exec) goStmt(st *State, fr *Frame, in *ssa.Go) {
 		ev.Args = append(ev.Args, x.val(st, fr, a))
 	}
 	st.events = append(st.events, ev)
+	if fv, ok := ev.Callee.(FuncV); ok && fv.Fn != nil && fv.Fn.Blocks != nil && !com.IsInvoke() {
+		ws := x.concurrentWrites(fv.Fn)
+		if len(ws) > 0 {
+			nc := make(map[string]Sort, len(st.conc)+len(ws))
+			for k, v := range st.conc {
+				nc[k] = v
+			}
+			for k, v := range ws {
+				nc[k] = v
+			}
+			st.conc = nc
+			if os.Getenv("GOVC_DEBUG") != "" {
+				for k := range ws {
+					fmt.Fprintf(os.Stderr, "conc write of %s: %s\n", ev.Name, k)
+				}
+			}
+		}
+	}
+}
+
+// syncPoint: where this thread may observe the writes of the goroutines it has started: at an acquire operation
+// after the `go` (channel receive / select, lock acquisition, WaitGroup wait) everything those goroutines may
+// write is unknown. Between acquire operations the thread sees its own writes only (data-race freedom assumed).
+func (x *Exec) syncPoint(st *State) {
+	if len(st.conc) == 0 {
+		return
+	}
+	keys := make([]string, 0, len(st.conc))
+	for k := range st.conc {
+		keys = append(keys, k)
+	}
+	sort.Strings(keys)
+	for _, k := range keys {
+		x.havocKey(st, k, st.conc[k])
+	}
 }
 
 func (x *Exec) chanEvent(st *State, kind string, ch Value, args []Value, res []Value) *Event {
 	ev := &Event{Kind: kind, Name: kind, Callee: ch, Args: args, Results: res, Index: len(st.events)}
 	st.events = append(st.events, ev)
+	if kind == "recv" {
+		x.syncPoint(st)
+		ev.Heap = copyHeap(st.heap)
+	}
 	return ev
 }
 
